@@ -253,10 +253,18 @@ func (w *World) Exec(o *Op) error {
 			return e
 		})
 	case "Toggle":
-		return w.try(func(ctx sdk.Context) error {
+		err := w.try(func(ctx sdk.Context) error {
 			_, e := c.App.Erc20Keeper.ToggleTokenConversion(ctx, &erc20types.MsgToggleTokenConversion{Authority: lib.GovAuthority(), Token: w.Toks[o.T].Base})
 			return e
 		})
+		if err == nil {
+			if w.disabledTok[o.T] {
+				delete(w.disabledTok, o.T)
+			} else {
+				w.disabledTok[o.T] = true
+			}
+		}
+		return err
 	case "PreCrossChain":
 		return w.try(func(ctx sdk.Context) error {
 			tk := w.Toks[o.T]
